@@ -170,7 +170,10 @@ def _zone(case, what=""):
     return case.get("rep") == "zone" and "is not of the form O*g" not in str(what)
 
 
-def _sector_labels(case):
+def _sector_labels(case, what=""):
+    # only the sector-direction / IPF-colour clauses are explained by the sector findings
+    if "fundamental sector" not in str(what) and "IPF colour" not in str(what):
+        return False
     bad = set()
     for e in common.load_findings().get("findings", []):
         if e.get("id") in ("C07-sector-not-domain", "C07-numeric-centre-band"):
@@ -184,7 +187,19 @@ def _euler_gimbal(case):
     return case.get("rep") == "euler" and (q[0] ** 2 + q[3] ** 2 < 1e-9 or q[1] ** 2 + q[2] ** 2 < 1e-9)
 
 
-PREDICATES = {"c06_zone_representative": _zone, "c06_bad_sector": _sector_labels, "c06_euler_gimbal": _euler_gimbal}
+def _euler_312(case, what=""):
+    G = groups()[case["k"]]
+    return case.get("rep") == "euler" and G.proper_subgroup.name == "312"
+
+
+def _improper_member_subtract(case, what=""):
+    G = groups()[case["k"]]
+    return (case.get("rep") == "equivalent" and "equivalent representative" in str(what) and not G.is_proper
+            and not G.contains_inversion)
+
+
+PREDICATES = {"c06_euler_312": _euler_312, "c06_improper_member_subtract": _improper_member_subtract,
+              "c06_zone_representative": _zone, "c06_bad_sector": _sector_labels, "c06_euler_gimbal": _euler_gimbal}
 
 
 def generate(ctx):
